@@ -1,7 +1,8 @@
 import ZV.Model.C22
 import ZV.Model.C22Der
+import ZV.Model.C22Any
 /-! line protocol for C22 (see go/props/c22/c22.go):
-    `c22 t <name>` · `c22 f <seq>` · `c22 a <name> <seq>` · `c22 d <name>` (DER leg through ZV.Model.C18) · `c22 s` (the schema term);  the canonical text of sequences / names is
+    `c22 t <name>` · `c22 f <seq>` · `c22 a <name> <seq>` · `c22 d <name>` (DER leg through ZV.Model.C18) · `c22 s` (the schema term) · `c22 u <der>` (Unmarshal of arbitrary DER through the ANY arm, ZV.Model.C22Any);  the canonical text of sequences / names is
     produced here exactly as the Go harness prints it. -/
 namespace ZV.C22
 
@@ -147,6 +148,23 @@ def handle (args : List String) : String :=
         | .ok (dec, rest) =>
           hexStr der ++ " | " ++ showSeq (some dec) ++ " | rest=" ++ toString rest.length ++ " | " ++
             nameDump (fill (some dec)) ++ dom
+    | none => "bad-op"
+  | ["u", dh] =>
+    match (if dh == "-" then some [] else ofHexChars dh.toList) with
+    | some der =>
+      match unmarshalAny der with
+      | .err => "uerr"
+      | .panic => "panic"
+      | .ok (dec, rest) =>
+        let m := fill (some dec)
+        let re :=
+          if allStrings dec then
+            match marshalSeq (some dec) with
+            | .ok b => hexStr b
+            | .err => "merr"
+            | .panic => "panic"
+          else "skip"
+        showSeq (some dec) ++ " | rest=" ++ toString rest.length ++ " | " ++ nameDump m ++ " | " ++ showSeq (toRDN m) ++ " | re=" ++ re
     | none => "bad-op"
   | _ => "bad-op"
 
